@@ -146,11 +146,17 @@ def _skip_descendants_of_failed_tasks(session: Session) -> None:
     """Skip tasks which were added to the DAG below an already failed task.
 
     When a task fails, all its descending tasks are marked with ``skip_ancestor_failed``.
-    Tasks which are created later by a task generator are not among them.
+    Tasks which are created later by a task generator are not among them. Tasks which
+    were skipped because of a failed ancestor pass the mark on as well: once their
+    provisional dependencies are resolved, they are no longer connected to the failed
+    task in the new DAG.
 
     """
     for report in session.execution_reports:
-        if report.outcome != TaskOutcome.FAIL:
+        if report.outcome not in (
+            TaskOutcome.FAIL,
+            TaskOutcome.SKIP_PREVIOUS_FAILED,
+        ):
             continue
         for name in descending_tasks(report.task.signature, session.dag):
             descending_task = session.dag.nodes[name]["task"]
